@@ -18,7 +18,7 @@ import (
 // the outer validation layer (valid checksum, valid framing) and carry
 // degenerate inner content.
 
-var c08knownPrefixes = []string{"bitcoincash", "bchtest", "bchreg", "bchsim", "simpleledger", "slptest", "slpreg"}
+var c08knownPrefixes = []string{"bitcoincash", "bchtest", "bchreg", "bchsim", "simpleledger", "slptest", "slpreg", "bchdev", "simpleledgerdevelopment", "bitcoincashdevelopmentnetwork", "s", "p"}
 
 func c08randPrefix(r *vf.Rand) string {
 	switch r.Intn(4) {
